@@ -41,7 +41,7 @@ def sample_cfg(r, emphasis=None):
     c = {"threads": r.choice([1, 2, 2, 3, 3, 4, 6]), "ckpt": r.choice([0, 1, 2, 3, 7]),
          "batch": r.choice([1, 1, 1, 2, 4, 64]), "period": r.choice([0, 0, 50, 400]),
          "sseed": r.randrange(1, 1 << 30), "switch": r.choice(["1/1", "1/2", "1/4", "1/8", "1/24", "1/96"]),
-         "policy": r.choice([0, 0, 0, 1, 2]), "skew": r.choice([0, 0, 40, 400])}
+         "policy": r.choice([0, 0, 0, 1, 2, 4]), "skew": r.choice([0, 0, 40, 400])}
     if emphasis:
         c.update(emphasis(r))
     return c
@@ -239,7 +239,8 @@ class Campaign:
             cs = [sample_cfg(r, emphasis) for _ in range(cfgs_per_model)] + list(fixed_cfgs or [])
             if md["family"] == "chain":
                 # the trigger LP belongs to the last thread: keep that thread off the processor while the chain runs ahead
-                cs = [dict(c, threads=3, park=r.choice([600, 1500, 3000]), batch=r.choice([1, 1, 2]), switch=r.choice(["1/1", "1/2", "1/4", "1/8"]))
+                cs = [dict(c, threads=3, park=r.choice([300, 600, 1500, 3000]), batch=r.choice([1, 1, 2]), switch=r.choice(["1/1", "1/2", "1/4", "1/8"]),
+                           policy=r.choice([4, 4, 0, 2]))
                       if not c.get("ranks") else c for c in cs]
             for i, c in enumerate(cs):
                 jobs.append((md, c, i))
